@@ -340,6 +340,7 @@ impl<TStdlib: Stdlib, TStdIn: Input, TStdOut: Printer, TLpt1: Printer>
                 kind: NestingKind::Call,
                 registers: 1,
                 values: 0,
+                go_subs: 0,
             }],
             last_error_address: None,
             last_error_code: None,
@@ -560,6 +561,8 @@ impl<TStdlib: Stdlib, TStdIn: Input, TStdOut: Printer, TLpt1: Printer>
                 if let Some(base) = self.pop_nesting_base(NestingKind::Call) {
                     self.register_stack.truncate(base.registers);
                     self.value_stack.truncate(base.values);
+                    // the GOSUBs of the subprogram that were never returned from
+                    self.go_sub_address_stack.truncate(base.go_subs);
                 }
                 if let Some(print_state) = self.print_state_stack.pop() {
                     self.print_state = print_state;
@@ -571,9 +574,13 @@ impl<TStdlib: Stdlib, TStdIn: Input, TStdOut: Printer, TLpt1: Printer>
                 self.push_nesting_base(NestingKind::GoSub);
                 ctx.opt_next_index = Some(address_or_label.address());
             }
-            Instruction::Return(opt_address) => match self.go_sub_address_stack.pop() {
+            Instruction::Return(opt_address) => match self.pop_go_sub_address() {
                 Some(address) => {
-                    self.pop_nesting_base(NestingKind::GoSub);
+                    // drop what a RETURN out of a FOR or SELECT CASE leaves behind
+                    if let Some(base) = self.pop_nesting_base(NestingKind::GoSub) {
+                        self.register_stack.truncate(base.registers);
+                        self.value_stack.truncate(base.values);
+                    }
                     ctx.opt_next_index = Some(match opt_address {
                         Some(address_or_label) => address_or_label.address(),
                         _ => address + 1,
@@ -703,11 +710,29 @@ impl<TStdlib: Stdlib, TStdIn: Input, TStdOut: Printer, TLpt1: Printer>
         Ok(())
     }
 
+    /// Pops the address of the most recent GOSUB of the current subprogram call
+    /// (or of the main module) that has not been returned from.
+    fn pop_go_sub_address(&mut self) -> Option<usize> {
+        let floor = self
+            .nesting_bases
+            .iter()
+            .rev()
+            .find(|base| base.kind == NestingKind::Call)
+            .map(|base| base.go_subs)
+            .unwrap_or(0);
+        if self.go_sub_address_stack.len() > floor {
+            self.go_sub_address_stack.pop()
+        } else {
+            None
+        }
+    }
+
     fn push_nesting_base(&mut self, kind: NestingKind) {
         self.nesting_bases.push(NestingBase {
             kind,
             registers: self.register_stack.len(),
             values: self.value_stack.len(),
+            go_subs: self.go_sub_address_stack.len(),
         });
     }
 
@@ -829,6 +854,8 @@ struct NestingBase {
     kind: NestingKind,
     registers: usize,
     values: usize,
+    /// The number of pending GOSUBs
+    go_subs: usize,
 }
 
 /// Context available to the execution of a single instruction.
